@@ -42,13 +42,13 @@ type NDFault struct {
 }
 
 type NDCase struct {
-	Pool      int        `json:"pool"`
+	Pool int `json:"pool"`
 	// PoolA (> 0): the dialling node is configured with another pool size than the accepting one
 	// (the acceptor's size decides how many links the connection gets)
 	PoolA int `json:"pool_a,omitempty"`
 	// DialBack: the connection is opened by the receivers' node, so the senders write on the accepting
 	// side of every link (which does not re-dial a lost link: the other side does and joins it again)
-	DialBack bool `json:"dial_back,omitempty"`
+	DialBack  bool       `json:"dial_back,omitempty"`
 	Segment   bool       `json:"segment"`
 	Skew      []int      `json:"skew"`
 	MaxSizeB  int        `json:"max_size_b"` // MaxMessageSize of the receiving node
